@@ -1291,25 +1291,72 @@ def _reached_for(fn, nid, d, v, extra=None):
 
 
 def _run_counter(fn, cur, size_d, size_v, c0, mul_id, copy_id):
-    """Abstract execution of one call of add() tracking only the slot counter (member `cur`), for prior value c0 and byte count
-    size_v.  Returns (counter afterwards, [slot index used by the copy destination], number of copies).  Raises Shape for any
-    operation on the counter other than ++ / -- / = const / += const / comparison with constants."""
+    """Abstract execution of one call of add() over integers: the slot counter (member `cur`) and the integer locals computed
+    from it (a local copy that is updated and stored back counts as the counter), for prior counter value c0 and byte count
+    size_v.  Returns (counter afterwards, [slot index used by the copy destination], number of copies).  Raises Shape when the
+    counter is given a value, or a branch depends on a value, that is not an integer expression over these."""
     st = {'c': c0}
-    vals = {}
+    env = {}          # decl id of a local -> int | None (unknown)
+    vals = {}         # executed ++ / -- nodes -> value of the expression
+
+    def is_cur(node):
+        return node is not None and this_field(fn, node) == cur
+
+    def ival(nid):
+        n = strip_casts(fn, nid)
+        if n is None:
+            return None
+        k = n.get('k')
+        if k == 'unop' and n.get('op') in ('++', '--'):
+            return vals.get(n['id'])
+        if is_cur(n):
+            return st['c']
+        if k == 'var' and n.get('vk', 'local') in ('local', 'param'):
+            if n.get('d') == size_d:
+                return size_v
+            return env.get(n.get('d'))
+        cv = fn.const_value(n['id'])
+        if cv is not None:
+            return cv
+        if k == 'binop' and n.get('op') in ('+', '-', '*', '/', '%'):
+            a, b2 = ival(n['lhs']), ival(n['rhs'])
+            if a is None or b2 is None:
+                return None
+            if n['op'] == '+':
+                return a + b2
+            if n['op'] == '-':
+                return a - b2
+            if n['op'] == '*':
+                return a * b2
+            if b2 == 0:
+                return None
+            return a // b2 if n['op'] == '/' else a % b2
+        if k == 'condop':
+            c = eval_cond(fn, n['cond'], value_of)
+            if c is None:
+                return None
+            return ival(n['then'] if c else n['else'])
+        return None
 
     def value_of(f, node):
         k = node.get('k')
-        if k == 'unop' and node.get('op') in ('++', '--') and this_field(f, f.sn(node['sub'])) == cur:
-            return vals.get(node['id'])
-        if this_field(f, node) == cur:
-            return st['c']
-        if k == 'var' and node.get('d') == size_d:
-            return size_v
-        if k == 'var' and node.get('vk') == 'param':
-            return 1            # non-null pointer argument (assert(string))
+        if k == 'binop' and node.get('op') in ('<', '<=', '>', '>=', '==', '!=', '&&', '||'):
+            return None
         if k == 'call' and node.get('q', '').endswith('::empty'):
             return False        # table already allocated; the other branch only allocates
+        v = ival(node['id'])
+        if v is not None:
+            return v
+        if k == 'var' and node.get('vk') == 'param' and node.get('d') != size_d:
+            return 1            # non-null pointer argument (assert(string))
         return None
+
+    def apply(op, old, v):
+        if op == '=':
+            return v
+        if old is None or v is None:
+            return None
+        return {'+=': old + v, '-=': old - v, '*=': old * v}.get(op)
     slots = []
     ncopy = 0
     b = fn.entry
@@ -1320,30 +1367,47 @@ def _run_counter(fn, cur, size_d, size_v, c0, mul_id, copy_id):
         for e in blk['elems']:
             n = fn.nodes[e]
             k = n.get('k')
-            if k == 'unop' and n.get('op') in ('++', '--') and this_field(fn, fn.sn(n['sub'])) == cur:
-                old = st['c']
-                st['c'] = old + (1 if n['op'] == '++' else -1)
-                vals[e] = old if n.get('postfix') else st['c']
-            elif k == 'assign' and this_field(fn, fn.sn(n['lhs'])) == cur:
-                v = fn.const_value(n['rhs'])
-                if v is None or n.get('op') not in ('=', '+=', '-='):
-                    raise Shape('the counter is assigned %s' % fn.expr(n['rhs']))
-                st['c'] = v if n['op'] == '=' else st['c'] + (v if n['op'] == '+=' else -v)
-            elif k == 'unop' and n.get('op') == '&' and this_field(fn, fn.sn(n['sub'])) == cur:
-                raise Shape('the address of the counter is taken')
-            elif e == mul_id:
-                sides = [strip_casts(fn, n['lhs']), strip_casts(fn, n['rhs'])]
-                got = None
-                for sd_ in sides:
-                    if sd_ is not None and fn.const_value(sd_['id']) is None:
-                        got = value_of(fn, sd_)
-                if got is None:
-                    raise Shape('slot index of the copy destination is not the counter')
-                slots.append(int(got))
+            if k == 'unop' and n.get('op') in ('++', '--'):
+                t = fn.sn(n['sub'])
+                delta = 1 if n['op'] == '++' else -1
+                if is_cur(t):
+                    old = st['c']
+                    st['c'] = old + delta
+                    vals[e] = old if n.get('postfix') else st['c']
+                elif t is not None and t.get('k') == 'var' and t.get('d') in env:
+                    old = env[t['d']]
+                    env[t['d']] = None if old is None else old + delta
+                    vals[e] = None if old is None else (old if n.get('postfix') else old + delta)
+            elif k == 'decl':
+                for v in n['vars']:
+                    env[v['d']] = ival(v['init']) if isinstance(v.get('init'), int) else None
+            elif k == 'assign':
+                t = fn.sn(n['lhs'])
+                if is_cur(t):
+                    v = apply(n.get('op'), st['c'], ival(n['rhs']))
+                    if v is None:
+                        raise Shape('the counter is assigned %s, which is not an integer expression over the counter' % fn.expr(n['rhs']))
+                    st['c'] = v
+                elif t is not None and t.get('k') == 'var' and t.get('vk', 'local') == 'local':
+                    env[t['d']] = apply(n.get('op'), env.get(t['d']), ival(n['rhs']))
+            elif k == 'unop' and n.get('op') == '&':
+                t = fn.sn(n['sub'])
+                if is_cur(t):
+                    raise Shape('the address of the counter is taken')
+                if t is not None and t.get('k') == 'var' and t.get('d') in env:
+                    env[t['d']] = None
             elif e == copy_id:
                 ncopy += 1
             elif k == 'throw':
                 raise Shape('add() throws')
+            if e == mul_id:
+                got = None
+                for side in (n['lhs'], n['rhs']):
+                    if fn.const_value(side) is None:
+                        got = ival(side)
+                if got is None:
+                    raise Shape('slot index of the copy destination is not an integer expression over the counter')
+                slots.append(int(got))
         if b == fn.exit:
             return st['c'], slots, ncopy
         succs = blk['succs']
@@ -1399,6 +1463,8 @@ def o5m_ring_rules(fb, R, TABLE=NS + 'ReferenceTable'):
                 for t in sides:
                     if t is not None and t.get('k') == 'unop' and t.get('op') in ('++', '--'):
                         t = fn.sn(t['sub'])     # table[counter++ * stride]: the counter evaluation below decides which value is used
+                    if t is not None and t.get('k') == 'var' and t.get('vk', 'local') == 'local':
+                        t = resolve(fn, t['id'])    # a local copy of the counter; its value is followed by the counter evaluation
                     if this_field(fn, t) is not None:
                         f.append(t)
                 c = [t for t in sides if t is not None and fn.const_value(t['id']) is not None]
